@@ -2,6 +2,7 @@
 package main
 
 import (
+	"bufio"
 	"encoding/json"
 	"flag"
 	"fmt"
@@ -22,6 +23,13 @@ type outFile struct {
 	LoadMS  int64            `json:"load_ms"`
 	WallMS  int64            `json:"wall_ms"`
 	Workers int              `json:"workers"`
+	Tasks   int              `json:"tasks"`
+}
+
+// message from a worker: either donated sub-tasks or the task's result
+type workerMsg struct {
+	Spawn  [][]symx.Decision `json:"spawn,omitempty"`
+	Result *symx.JobResult   `json:"result,omitempty"`
 }
 
 func main() {
@@ -31,7 +39,12 @@ func main() {
 	outPath := flag.String("out", "", "output JSON")
 	workers := flag.Int("workers", 1, "parallel worker processes")
 	root := flag.String("root", "github.com/flamego/flamego", "root package")
+	serve := flag.Bool("serve", false, "worker mode: one task per stdin line")
 	flag.Parse()
+	if *serve {
+		serveLoop(*repo, *overlayPath, *root)
+		return
+	}
 
 	start := time.Now()
 	var jf jobsFile
@@ -43,66 +56,156 @@ func main() {
 		fatal(err)
 	}
 
-	if *workers > 1 && len(jf.Jobs) > 1 {
-		n := *workers
-		if n > len(jf.Jobs) {
-			n = len(jf.Jobs)
+	if *workers <= 1 {
+		in, prog := loadInterp(*repo, *overlayPath, *root)
+		var out outFile
+		out.LoadMS = prog.LoadMS
+		out.Workers = 1
+		for _, j := range jf.Jobs {
+			j.ShedMS = -1
+			r := in.RunJob(j, nil)
+			out.Results = append(out.Results, r)
 		}
-		// dynamic distribution: each child takes a static slice, interleaved
-		// (jobs are expected to be sorted by decreasing estimated cost).
-		dir, _ := os.MkdirTemp("", "symxw")
-		defer os.RemoveAll(dir)
-		var wg sync.WaitGroup
-		outs := make([]outFile, n)
-		errs := make([]error, n)
-		for w := 0; w < n; w++ {
-			var sub jobsFile
-			for k := w; k < len(jf.Jobs); k += n {
-				sub.Jobs = append(sub.Jobs, jf.Jobs[k])
-			}
-			jp := fmt.Sprintf("%s/jobs%d.json", dir, w)
-			op := fmt.Sprintf("%s/out%d.json", dir, w)
-			b, _ := json.Marshal(sub)
-			os.WriteFile(jp, b, 0o644)
-			wg.Add(1)
-			go func(w int) {
-				defer wg.Done()
-				cmd := exec.Command(os.Args[0], "-repo", *repo, "-overlay", *overlayPath, "-jobs", jp, "-out", op, "-workers", "1", "-root", *root)
-				cmd.Stderr = os.Stderr
-				cmd.Stdout = os.Stderr
-				if err := cmd.Run(); err != nil {
-					errs[w] = err
-					return
-				}
-				b, err := os.ReadFile(op)
-				if err != nil {
-					errs[w] = err
-					return
-				}
-				errs[w] = json.Unmarshal(b, &outs[w])
-			}(w)
-		}
-		wg.Wait()
-		var all outFile
-		for w := 0; w < n; w++ {
-			if errs[w] != nil {
-				fatal(fmt.Errorf("worker %d: %v", w, errs[w]))
-			}
-			all.Results = append(all.Results, outs[w].Results...)
-			if outs[w].LoadMS > all.LoadMS {
-				all.LoadMS = outs[w].LoadMS
-			}
-		}
-		all.Workers = n
-		all.WallMS = time.Since(start).Milliseconds()
-		writeOut(*outPath, all)
+		out.WallMS = time.Since(start).Milliseconds()
+		writeOut(*outPath, out)
 		return
 	}
 
+	// ---- scheduler: a shared queue of tasks; workers donate sub-trees back
+	n := *workers
+	var mu sync.Mutex
+	cond := sync.NewCond(&mu)
+	queue := append([]symx.Job{}, jf.Jobs...)
+	active := 0
+	acc := map[string]*symx.JobResult{}
+	order := []string{}
+	for _, j := range jf.Jobs {
+		acc[j.ID] = &symx.JobResult{}
+		order = append(order, j.ID)
+	}
+	jobByID := map[string]symx.Job{}
+	for _, j := range jf.Jobs {
+		jobByID[j.ID] = j
+	}
+	tasks := 0
+	var firstErr error
+	var wg sync.WaitGroup
+	for w := 0; w < n; w++ {
+		wg.Add(1)
+		go func(w int) {
+			defer wg.Done()
+			var cmd *exec.Cmd
+			var enc *json.Encoder
+			var rd *bufio.Reader
+			startWorker := func() error {
+				cmd = exec.Command(os.Args[0], "-serve", "-repo", *repo, "-overlay", *overlayPath, "-root", *root)
+				cmd.Stderr = os.Stderr
+				in, _ := cmd.StdinPipe()
+				outp, _ := cmd.StdoutPipe()
+				if err := cmd.Start(); err != nil {
+					return err
+				}
+				rd = bufio.NewReaderSize(outp, 1<<20)
+				enc = json.NewEncoder(in)
+				return nil
+			}
+			for {
+				mu.Lock()
+				for len(queue) == 0 && active > 0 && firstErr == nil {
+					cond.Wait()
+				}
+				if len(queue) == 0 || firstErr != nil {
+					mu.Unlock()
+					break
+				}
+				task := queue[0]
+				queue = queue[1:]
+				active++
+				tasks++
+				mu.Unlock()
+
+				if cmd == nil {
+					if err := startWorker(); err != nil {
+						mu.Lock()
+						firstErr = err
+						active--
+						cond.Broadcast()
+						mu.Unlock()
+						break
+					}
+				}
+				fail := func(err error) {
+					mu.Lock()
+					if firstErr == nil {
+						firstErr = fmt.Errorf("worker %d on job %s: %v", w, task.ID, err)
+					}
+					active--
+					cond.Broadcast()
+					mu.Unlock()
+				}
+				if err := enc.Encode(task); err != nil {
+					fail(err)
+					return
+				}
+				done := false
+				for !done {
+					line, err := rd.ReadBytes('\n')
+					if err != nil {
+						fail(fmt.Errorf("worker died: %v", err))
+						return
+					}
+					var m workerMsg
+					if err := json.Unmarshal(line, &m); err != nil {
+						fail(fmt.Errorf("bad message: %v", err))
+						return
+					}
+					mu.Lock()
+					if m.Spawn != nil {
+						for _, pre := range m.Spawn {
+							t := jobByID[task.ID]
+							t.RootPrefix = pre
+							queue = append(queue, t)
+						}
+						cond.Broadcast()
+					}
+					if m.Result != nil {
+						keep := task.KeepWitnesses
+						if keep == 0 {
+							keep = 24
+						}
+						symx.MergeResults(acc[task.ID], *m.Result, keep)
+						active--
+						done = true
+						cond.Broadcast()
+					}
+					mu.Unlock()
+				}
+			}
+			if cmd != nil {
+				cmd.Process.Kill()
+				cmd.Wait()
+			}
+		}(w)
+	}
+	wg.Wait()
+	if firstErr != nil {
+		fatal(firstErr)
+	}
+	var all outFile
+	for _, id := range order {
+		all.Results = append(all.Results, *acc[id])
+	}
+	all.Workers = n
+	all.Tasks = tasks
+	all.WallMS = time.Since(start).Milliseconds()
+	writeOut(*outPath, all)
+}
+
+func loadInterp(repo, overlayPath, root string) (*symx.Interp, *symx.Program) {
 	overlay := map[string][]byte{}
-	if *overlayPath != "" {
+	if overlayPath != "" {
 		var m map[string]string
-		b, err := os.ReadFile(*overlayPath)
+		b, err := os.ReadFile(overlayPath)
 		if err != nil {
 			fatal(err)
 		}
@@ -117,23 +220,41 @@ func main() {
 			overlay[virt] = c
 		}
 	}
-	prog, err := symx.Load(*repo, overlay, ".")
+	prog, err := symx.Load(repo, overlay, ".")
 	if err != nil {
 		fatal(err)
 	}
-	in, err := symx.NewInterp(prog, *root)
+	in, err := symx.NewInterp(prog, root)
 	if err != nil {
 		fatal(err)
 	}
-	var out outFile
-	out.LoadMS = prog.LoadMS
-	out.Workers = 1
-	for _, j := range jf.Jobs {
-		r := in.RunJob(j)
-		out.Results = append(out.Results, r)
+	return in, prog
+}
+
+func serveLoop(repo, overlayPath, root string) {
+	in, _ := loadInterp(repo, overlayPath, root)
+	rd := bufio.NewReaderSize(os.Stdin, 1<<20)
+	out := bufio.NewWriter(os.Stdout)
+	send := func(m workerMsg) {
+		b, _ := json.Marshal(m)
+		out.Write(b)
+		out.WriteByte('\n')
+		out.Flush()
 	}
-	out.WallMS = time.Since(start).Milliseconds()
-	writeOut(*outPath, out)
+	for {
+		line, err := rd.ReadBytes('\n')
+		if len(line) > 1 {
+			var j symx.Job
+			if e := json.Unmarshal(line, &j); e != nil {
+				fatal(e)
+			}
+			r := in.RunJob(j, func(give [][]symx.Decision) { send(workerMsg{Spawn: give}) })
+			send(workerMsg{Result: &r})
+		}
+		if err != nil {
+			return
+		}
+	}
 }
 
 func writeOut(path string, o outFile) {
